@@ -8,8 +8,9 @@ Writes seeded/<id>/meta.json: detected_by and seeded/SENSITIVITY.json. Never run
 import json, os, subprocess, sys, glob, time
 
 EXTRA = {  # related checks that share mechanisms with the seeded property
-    "C01": ["C05"], "C02": ["C07", "C05"], "C10": ["C14", "C13"], "C12": ["C13"], "C16": ["C17"], "C17": ["C16"],
-    "C03": ["C09"], "C07": ["C08"], "C08": ["C07"], "C13": ["C12"], "C14": ["C13"],
+    "C01": ["C05", "C03"], "C02": ["C07", "C03", "C16"], "C03": ["C09"], "C05": ["C06"], "C07": ["C08"], "C08": ["C07"],
+    "C10": ["C14", "C13"], "C12": ["C13"], "C13": ["C12"], "C14": ["C13", "C15"], "C15": ["C12"], "C16": ["C17"], "C17": ["C16"],
+    "C19": ["C10"],
 }
 
 def sh(cmd, **kw):
